@@ -26,6 +26,11 @@ def const_truth(C, a, cmpop, b):
     else: return None
     return {0: v < 0, 1: v <= 0, 2: v == 0, 3: v != 0}[cmpop]
 
+def _truncate_path(path, ndec):
+    class P: pass
+    p = P(); p.__dict__.update(path.__dict__); p.decisions = list(path.decisions)[:ndec]
+    return p
+
 def prove_path(entry, path, opts):
     """Returns dict with statuses. opts: per_check_ms, jobs, skip_claims(set of name prefixes)"""
     t0 = time.time()
@@ -65,9 +70,19 @@ def prove_path(entry, path, opts):
             try:
                 C = cfm.Canon(nodes, roots, path.hyps, sign_override=sign_override, inverse_polar=('no_inverse_polar' not in path.notes))
                 # stage 1: decisions only -- a path refuted by constant decisions needs no claim forms
-                C.run(droots)
-                early = any(const_truth(C, a, c, b) is not None and const_truth(C, a, c, b) != t for (a, c, b, t) in path.decisions)
+                # decisions in execution order: stop at the first one that is refuted by a constant (later nodes of such a
+                # path may divide by an expression that is identically zero there)
+                early = False; done_roots = []
+                for (a, c, b) in path.assumes:
+                    C.run([a, b]); done_roots += [a, b]
+                for (a, c, b, t) in path.decisions:
+                    C.run([a, b]); done_roots += [a, b]
+                    ct = const_truth(C, a, c, b)
+                    if ct is not None and ct != t:
+                        early = True; break
                 if early:
+                    droots = done_roots
+                    path = _truncate_path(path, len([1 for x in done_roots]) // 2 - len(path.assumes))
                     C.cone = sorted(dagm.cone(nodes, droots))
                 else:
                     C.run(roots)
